@@ -14,6 +14,7 @@ extern "C" {
 int c14_master_secret(const ssl_t *ssl, unsigned char out[48]);
 int c14_flag_resumed(const ssl_t *ssl);
 int c14_flag_error(const ssl_t *ssl);
+int c14_send_fatal_alert(ssl_t *ssl, int desc);
 int c14_session_id(const ssl_t *ssl, unsigned char out[32]);
 int c14_ems(const ssl_t *ssl);
 int c14_cipher_id(const ssl_t *ssl);
@@ -405,11 +406,19 @@ static void prop(Tape &t, Ctx &c) {
         Live L = std::move(w.live[li]); w.live.erase(w.live.begin() + li);
         Pair &p = *L.p; static const uint8_t m[] = "x";
         Endpoint &from = to_server ? p.c : p.s, &to = to_server ? p.s : p.c;
+        // variant (pos 6, 7; TLS <= 1.2): the peer itself sends a fatal-level alert - close_notify (0) or handshake_failure (40) - which the
+        // other end receives; RFC 5246 7.2.2: whatever it describes, a fatal alert invalidates the session
+        bool sent_alert = false; int adesc = pos == 6 ? 0 : 40;
+        if (pos >= 6 && !from.dtls && from.ssl && from.hs_complete() && matrixSslGetNegotiatedVersion(from.ssl) != v_tls_1_3) {
+            from.sel(); if (c14_send_fatal_alert(from.ssl, adesc) >= 0) { sent_alert = true; from.out_pending = true; from.pump_out(); Bytes rec = from.take_wire(); to.feed(rec); p.run(); } }
+        bool got;
+        if (sent_alert) { got = to.fatal_alert_recv == adesc; c.count(fmt("cmd:fatal-alert-from-peer:%d", adesc)); }
+        else {
         from.send(m, 1); Bytes rec = from.take_wire();
         if (rec.size() > 6) rec[rec.size() - 1 - std::min<size_t>(pos, rec.size() - 6)] ^= 0x40;
         to.feed(rec); p.run();
-        bool got = from.fatal_alert_recv >= 0;
-        w.note(fmt("FatalOn(c%d's session, corrupt record to %s, bound=%s)%s", L.client, to_server ? "server" : "client", cred_str(w, L.cred).c_str(), got ? "" : " [no alert seen]"));
+        got = from.fatal_alert_recv >= 0; }
+        w.note(fmt("FatalOn(c%d's session, %s to %s, bound=%s)%s", L.client, sent_alert ? fmt("fatal alert %d", adesc).c_str() : "corrupt record", to_server ? "server" : "client", cred_str(w, L.cred).c_str(), got ? "" : " [no alert seen]"));
         c.count(got ? "cmd:fatal-on" : "cmd:fatal-on-no-alert");
         if (got) { w.any_fatal = true; w.pre_fatal = true; if (L.cred >= 0 && w.creds[L.cred].kind == CK_ID) w.creds[L.cred].invalidated = true; }
         L.p.reset();                                    // the application deletes both ends right away, as it must after a fatal alert
